@@ -187,7 +187,7 @@ class Ctx:
             print("  %s :: %s" % (kk, msg[:600]))
         if violations:
             import collections as _c
-            cls = _c.Counter((k.get("clause", "?"), k.get("op", "?")) for k, _, _ in violations)
+            cls = _c.Counter((k.get("clause", "?"), k.get("op", k.get("exc", "?")), k.get("where", "")) if k.get("where") else (k.get("clause", "?"), k.get("op", "?")) for k, _, _ in violations)
             print("  (%d violation(s) in total; by clause/op: %s)" % (len(violations), dict(cls)))
         for d in self.drift[:10]:
             print("DRIFT property=%s %s" % (self.pid, d[:300]))
